@@ -580,3 +580,115 @@ func (fx *FnExec) unifySlices(rs []mergeRes, conds []*Term) {
 		}
 	}
 }
+
+// mergeStatesVals joins several (state, value) results that extend a common path prefix of length base.
+func (fx *FnExec) mergeStatesVals(base int, rs []mergeRes, val func(i int) Value) (*State, Value, bool) {
+	conds := make([]*Term, len(rs))
+	for i, r := range rs {
+		conds[i] = And(r.st.PC[base:]...)
+	}
+	fx.unifySlices(rs, conds)
+	st := &State{Heap: map[*Object]Value{}, Ghost: map[string]*Term{}}
+	st.PC = append([]*Term(nil), rs[0].st.PC[:base]...)
+	st.Assume(Or(conds...))
+	for _, q := range rs[0].st.Quants {
+		all := true
+		for _, r := range rs[1:] {
+			found := false
+			for _, q2 := range r.st.Quants {
+				if q2 == q {
+					found = true
+				}
+			}
+			if !found {
+				all = false
+			}
+		}
+		if all {
+			st.Quants = append(st.Quants, q)
+		}
+	}
+	objs := map[*Object]bool{}
+	for _, r := range rs {
+		for o := range r.st.Heap {
+			objs[o] = true
+		}
+	}
+	for o := range objs {
+		var cs []*Term
+		var vs []Value
+		for i, r := range rs {
+			if v, ok := r.st.Heap[o]; ok {
+				cs = append(cs, conds[i])
+				vs = append(vs, v)
+			}
+		}
+		v, ok := mergeVals(cs, vs)
+		if !ok {
+			return nil, nil, false
+		}
+		st.Heap[o] = v
+	}
+	keys := map[string]bool{}
+	for _, r := range rs {
+		for k := range r.st.Ghost {
+			keys[k] = true
+		}
+	}
+	for k := range keys {
+		var vs []Value
+		for _, r := range rs {
+			g, ok := r.st.Ghost[k]
+			if !ok {
+				g = BV64(0)
+			}
+			vs = append(vs, Scalar{g})
+		}
+		v, ok := mergeVals(conds, vs)
+		if !ok {
+			return nil, nil, false
+		}
+		st.Ghost[k] = v.(Scalar).T
+	}
+	var vals []Value
+	anyNil := false
+	for i := range rs {
+		v := val(i)
+		if v == nil {
+			anyNil = true
+		}
+		vals = append(vals, v)
+	}
+	if anyNil {
+		for _, v := range vals {
+			if v != nil {
+				return nil, nil, false
+			}
+		}
+		return st, nil, true
+	}
+	if tv, isT := vals[0].(TupleV); isT {
+		out := TupleV{}
+		for j := range tv.V {
+			var col []Value
+			for _, v := range vals {
+				t2, ok := v.(TupleV)
+				if !ok || len(t2.V) != len(tv.V) {
+					return nil, nil, false
+				}
+				col = append(col, t2.V[j])
+			}
+			m, ok := mergeVals(conds, col)
+			if !ok {
+				return nil, nil, false
+			}
+			out.V = append(out.V, m)
+		}
+		return st, out, true
+	}
+	mv, ok := mergeVals(conds, vals)
+	if !ok {
+		return nil, nil, false
+	}
+	return st, mv, true
+}
